@@ -9,7 +9,7 @@ from ..strat import uni, logu
 
 META = dict(
     technique='Hypothesis-generated left/right states (pattern-balanced); quadrature of returned fields vs '
-              'initial integral + t*(flux_left - flux_right)',
+              'initial integral + t*(flux_left - flux_right); coverage-guided supplement: the same strategy and oracle driven by atheris/libFuzzer through Hypothesis fuzz_one_input (obligations *-atheris)',
     rule='cases = pattern-balanced (SCS / SCR / RCS / RCR / ul=ur) left & right ideal-gas states with boosts, unequal gammas, '
          'random membrane position, window and time (waves inside the window); JWL data for the general solver; '
          'oracle = integral conservation over an interval containing all waves, discontinuities located by bisection '
